@@ -9,6 +9,9 @@ type callbackMgr[T any] struct {
 	p *Params[T]
 
 	ch <-chan userCallbackEvent
+	// monDone is closed when the monitor goroutine (the producer of
+	// config/error events) exits.
+	monDone <-chan struct{}
 }
 
 type userCallbackEvent interface {
@@ -67,7 +70,19 @@ func (cbm *callbackMgr[T]) runCBs(ctx context.Context) {
 	newCfgCBs := make([]*userCallbackHandle[T], 0)
 	lastSerial := uint64(0)
 	lastVersion := (*T)(nil)
-	for ev := range cbm.ch {
+	for {
+		var ev userCallbackEvent
+		select {
+		case ev = <-cbm.ch:
+		case <-cbm.monDone:
+			// The monitor has exited: handle what is already
+			// queued, then exit.
+			select {
+			case ev = <-cbm.ch:
+			default:
+				return
+			}
+		}
 		switch e := ev.(type) {
 		case *watchErrorEvent[T]:
 			if cbm.p.OnWatchedError != nil {
